@@ -1274,6 +1274,8 @@ def check_c02(pid, tier, build, props):
         problems.append("harness errors: %r" % sn["harness_errors"][:2])
     real, skipped = c02_real_cfgs(tier, rng)
     jobs = [("list", real[i::8]) for i in range(8)]
+    # long structured graphs (each its own job: a run that does not come back costs its 10 s and nothing else)
+    jobs += [("list", [g]) for g in gen_graphs.long_chains()]
     if tier == "thorough":
         nsh = len(gen_graphs.options(5))
         jobs += [("exh5", (i, nsh)) for i in range(nsh)]
@@ -1486,6 +1488,9 @@ def check_c15(pid, tier, build, props):
             if len(violations) < 6:
                 violations.append({"graph": item[1], "payload": item[2], "stage": stages.STAGES[f["stage"]],
                                    "witness": {"reason": f["what"] + ": " + f["reason"]}})
+        if meta.get("export_errors") and not meta["failures"]:
+            problems.append("a graph the library produced cannot be exported to the model (%s): the correspondence "
+                            "was not run for %r" % (meta["export_errors"][0], item))
         if res is None:
             continue
         rs = res if (res and isinstance(res[0], list)) else [res]
